@@ -969,3 +969,107 @@ func ruleL4p(c *Ctx, owners map[string]bool, floor int) {
 			fmt.Sprintf("%s can panic at %s while holding its mutex and releases it with an explicit Unlock: after the (recovered) panic every later call on the object blocks for ever — also a Wait whose context is cancelled", f.Name, p.Position(panicky.Pos())))
 	}
 }
+
+// ---------------------------------------------------------------- D6f
+
+// ruleD6f: the membership index of a dt.Set only ever holds nil or an element
+// the set made itself, and never leaves the set. Every mention of the field
+// Set.hash is classified; anything but the enumerated read forms and the two
+// write forms (a fresh NewElement, the zero value) is reported.
+func ruleD6f(c *Ctx) {
+	R := c.R
+	p := c.P
+	R.Rule("D6f", "Set.hash is written only with the zero value (SetDefault) or with an element made by NewElement in the same function, is replaced only by an empty map, and is never passed on, returned, copied from or bulk-merged: the element pointers in the index always belong to this set's own order list (the bijection between index and list cannot be broken from another set)", 8)
+	readMethods := map[string]bool{"Check": true, "Get": true, "Load": true, "Len": true, "Delete": true}
+	n := 0
+	perFunc := map[*Func]int{}
+	for _, f := range p.FuncsIn("dt") {
+		info := f.Info()
+		walkNoLit(f.Body, func(x ast.Node) bool {
+			se, ok := x.(*ast.SelectorExpr)
+			if !ok || se.Sel.Name != "hash" {
+				return true
+			}
+			s := info.Selections[se]
+			if s == nil || s.Kind() != types.FieldVal || !typeIs(s.Recv(), "dt", "Set") {
+				return true
+			}
+			n++
+			perFunc[f]++
+			at := fmt.Sprintf("%s/hash-use#%d", f.Name, perFunc[f])
+			pos := p.Position(se.Pos())
+			par := p.Parent(se)
+			fresh := func(e ast.Expr) bool {
+				call, ok := ast.Unparen(resolveLocal(f, e)).(*ast.CallExpr)
+				return ok && callName(info, call) == "dt.NewElement"
+			}
+			bad := ""
+			switch t := par.(type) {
+			case *ast.CallExpr:
+				// len(s.hash), delete(s.hash, k), or an argument to something else
+				if isBuiltinCall(info, t, "len") || isBuiltinCall(info, t, "delete") {
+					break
+				}
+				bad = "is passed to " + exprStr(t.Fun)
+			case *ast.SelectorExpr:
+				// s.hash.M(...)
+				call, isCall := p.Parent(t).(*ast.CallExpr)
+				if !isCall || call.Fun != ast.Expr(t) {
+					bad = "has a method value taken (" + exprStr(t) + ")"
+					break
+				}
+				switch {
+				case readMethods[t.Sel.Name]:
+				case t.Sel.Name == "SetDefault":
+				case t.Sel.Name == "Add" && len(call.Args) == 2:
+					if !fresh(call.Args[1]) {
+						bad = "receives " + exprStr(call.Args[1]) + ", which is not an element made here by NewElement"
+					}
+				default:
+					bad = "is used through " + t.Sel.Name + ", which is neither a read nor a single store of a fresh element"
+				}
+			case *ast.IndexExpr:
+				// s.hash[k] read, or s.hash[k] = v
+				if as, isAs := p.Parent(t).(*ast.AssignStmt); isAs {
+					for i, l := range as.Lhs {
+						if l == ast.Expr(t) && i < len(as.Rhs) && !fresh(as.Rhs[i]) {
+							bad = "receives " + exprStr(as.Rhs[i]) + ", which is not an element made here by NewElement"
+						}
+					}
+				}
+			case *ast.RangeStmt:
+				if t.X != ast.Expr(se) {
+					bad = "is assigned in a range clause"
+				}
+			case *ast.BinaryExpr:
+				// s.hash == nil
+			case *ast.AssignStmt:
+				for i, l := range t.Lhs {
+					if l == ast.Expr(se) {
+						ok := false
+						if i < len(t.Rhs) {
+							switch r := ast.Unparen(t.Rhs[i]).(type) {
+							case *ast.CompositeLit:
+								ok = len(r.Elts) == 0
+							case *ast.CallExpr:
+								ok = isBuiltinCall(info, r, "make")
+							}
+						}
+						if !ok {
+							bad = "is replaced by something other than an empty map"
+						}
+					}
+				}
+				for _, r := range t.Rhs {
+					if r == ast.Expr(se) {
+						bad = "is copied to " + exprStr(t.Lhs[0])
+					}
+				}
+			default:
+				bad = fmt.Sprintf("is used in a %T", par)
+			}
+			R.Check(bad == "", "D6f", at, pos, "read, or a store of nil / a fresh element", fmt.Sprintf("%s: the set's index %s (%s): elements of another set's order list can get into (or out of) this index, after which a Delete here unlinks a member of the other set behind its back", f.Name, bad, pos))
+			return true
+		})
+	}
+}
